@@ -210,6 +210,9 @@ def make_result(case):
     if case.get("method") == "Levenberg-Marquardt":
         options["rates.k1"] = {"non_negative": True}  # MINPACK does not support bounds
     params = B.make_parameters(vals, options)
+    for i, p in enumerate(params.all()):  # the start values are the outcome of an earlier fit: they carry standard errors
+        if p.vary:
+            p.standard_error = 0.01 * (i + 1) + 0.1 + 0.2
     scheme = Scheme(model=model, parameters=params, data=data, maximum_number_function_evaluations=case["nfev"], add_svd=case.get("add_svd", False),
                     optimization_method=case.get("method", "TrustRegionReflection"))  # fmt: skip
     with warnings.catch_warnings():
@@ -288,10 +291,15 @@ def case_result(case):
         warnings.simplefilter("ignore")
         try:
             os.chdir(d)
+            if case["target"] == "symlink":  # the folder is reached through a symbolic link
+                (Path(d) / "out" / "storage").mkdir(parents=True)
+                os.symlink(Path(d) / "out" / "storage", Path(d) / "out" / "link", target_is_directory=True)
             target = {"absolute": Path(d) / "out" / "run1" / "result.yml", "relative": Path("rel") / "run1" / "result.yml",
-                      "folder": Path(d) / "out" / "folder_target"}[case["target"]]  # fmt: skip
+                      "folder": Path(d) / "out" / "folder_target",
+                      "symlink": Path(d) / "out" / "link" / "run1" / "result.yml"}[case["target"]]  # fmt: skip
             paths = save_result(result, target, saving_options=options)
             folder = (Path(d) / target).parent if target.suffix else Path(d) / target
+            unresolved = folder
             folder = folder.resolve()
             written = sorted(p.name for p in folder.iterdir())
             if (folder / "result.md").exists() != bool(case["report"]):
@@ -307,7 +315,7 @@ def case_result(case):
                         vs.append(V("reference-not-relative-to-result-folder", file=yml, reference=ref))
                     elif not (folder / ref).exists():
                         vs.append(V("reference-does-not-resolve", file=yml, reference=ref))
-            loaded = load_result(folder / "result.yml" if case["target"] != "folder" else folder)
+            loaded = load_result((unresolved if case["target"] == "symlink" else folder) / "result.yml" if case["target"] != "folder" else folder)
             vs += compare_results(result, loaded, options, "in place")
             vs += check_sources(loaded, folder, "in place")
             # move the folder, load again
@@ -469,7 +477,7 @@ def run(run: core.Run):
     for nds, weights, penalty in ((1, False, False), (2, True, False), (2, False, True)):
         for df in filters:
             for report in (True, False):
-                for target in ("absolute", "relative", "folder"):
+                for target in ("absolute", "relative", "folder", "symlink"):
                     if quick and (nds, weights, penalty) != (2, True, False) and (df not in (None, filters[1]) or target == "relative"):
                         continue
                     res.append({"nds": nds, "weights": weights, "penalty": penalty, "nfev": 3, "data_filter": df, "report": report, "target": target,
